@@ -3027,8 +3027,11 @@ func (dsc *dataStoreCommand) load(l lane.Lane, path string) (err error) {
 }
 
 func (dsc *dataStoreCommand) sort(sourceKeyName, byPattern, destKeyName string, startAt, count int, getPatterns []string, limit, desc, alpha bool) (output respValue) {
+	// STORE can make a list non-empty: clients blocked on the destination have to be woken
+	uk := unblockKey{keyName: destKeyName}
+
 	dsc.lock()
-	defer dsc.unlock()
+	defer dsc.unlockAndUnblock(&uk)
 
 	// get the values to sort
 	var vals []sortVal
@@ -3181,6 +3184,7 @@ func (dsc *dataStoreCommand) sort(sourceKeyName, byPattern, destKeyName string, 
 			str, _ := element.toString()
 			dsc.rpushUnlocked(destKeyName, list, []byte(str))
 		}
+		uk.elements = len(a)
 
 		output.data = respInt(list.count)
 	} else {
